@@ -756,6 +756,7 @@ class DigitLoopStep(Harness):
             N, Ics, modes, base)
         self.bounds = ['digits produced before the iteration: %s' % (ns if ns is not None else 'at most %d' % N), 'intdigits in %s' % (Ics,), 'digit budgets %s' % (modes,),
                        ('the first %d digits are the digit %d' % fixed) if fixed[0] else 'all digits symbolic',
+                       'leading zero digits: %s' % ('any number' if zs is None else 'one of %s, or all digits so far' % (zs,)),
                        'recurring blocks reported by the small-period shortcut: at most %d digits' % max_block]
         self.assumptions = ['pre-state = specification of long division after n steps (digits d_i = floor(base * c_i), remainders c_i in [0,1), '
                             'remembered remainders pairwise distinct; an over-approximation of the reachable states); reachability of the pre-state is established by the base-case harness '
@@ -971,3 +972,100 @@ def harnesses(tier):   # noqa: F811
                DigitLoopStep(10, ['FullInt'], [1002], 1003, zs=[0], ns=[999, 1000, 1001, 1002], fixed=(995, 1), tag='long'),
                DigitLoopStep(10, ['FullInt'], [1001, 1003], 1004, zs=[0], ns=[998, 999, 1000, 1001, 1002, 1003], fixed=(994, 7), tag='long2')]
     return hs
+
+
+# --------------------------------------------------------------------------------------------------------------
+# Concrete companion + translator validation for the digit loop: the WHOLE real to_digits_impl (real is_recurring, the
+# IndexSet model, the lazy-numerator and digit-string shortcuts of the executor) interpreted on a finite list of values
+# and compared (a) with the exact oracle and (b) with the natively compiled function.  No symbolic variable: this does not
+# decide anything for "all values"; it guards the models the step harness relies on.
+
+COMPANION_VALUES = [Fraction(n, d) for n, d in ((1, 3), (1, 7), (22, 7), (1, 34), (1, 68), (3, 76), (1, 17), (1200, 3937), (5, 8), (1, 1024),
+                                                  (123456, 1000), (999999, 1000), (1, 9990), (1, 81), (10, 3), (100, 3), (7, 12), (1, 13), (2, 3),
+                                                  (99, 100), (1, 1000), (1001, 1000), (50, 1), (7, 1), (0, 1), (1, 6), (5, 6), (1, 22), (355, 113))]
+
+
+class DigitPrinterCompanion(Harness):
+    name = 'bigrat.to_digits_impl.concrete_companion'
+    props = ('C05',)
+    entry = 'BigRat::to_digits_impl'
+    stubs = ((r'^BigInt::size_in_base$', stub_size_in_base, 'BigInt::size_in_base -> true digit count (concrete values)'),)
+    loop_bound = 1200
+    max_paths = 4000
+    _concrete = None
+    MODES = ['Default', '2', '12', '30']
+
+    def __init__(self, bases):
+        self.bases = bases
+        self.describe = ('concrete companion (no symbolic variable): the whole real to_digits_impl, with the real is_recurring, interpreted on %d '
+                         'values x %d digit budgets x bases %s x both signs; each numeral is re-read with exact fractions') % (
+            len(COMPANION_VALUES), len(self.MODES), bases)
+        self.bounds = ['finite list of values: %s' % ', '.join(str(v) for v in COMPANION_VALUES)]
+        self.expect_classes = ['return']
+
+    def build(self, ex, I):
+        if self._concrete is not None:
+            v = Fraction(self._concrete['v'])
+            base = int(self._concrete['base'])
+            mode = self._concrete['mode']
+        else:
+            v = COMPANION_VALUES[ex.choose(len(COMPANION_VALUES), 'value')]
+            if ex.choose(2, 'negative'):
+                v = -v
+            base = self.bases[ex.choose(len(self.bases), 'base')]
+            mode = self.MODES[ex.choose(len(self.MODES), 'digit budget')]
+        ex.env['force_intdigits'] = None
+        dg = variant(ex, 'Digits', 'Default') if mode == 'Default' else variant(ex, 'Digits', 'Digits', [int(mode)])
+        return [ref(bigrat(v)), base, dg], {'v': v, 'base': base, 'mode': mode}
+
+    def post(self, ex, ctx, outcome):
+        t = deref_all(outcome[1])
+        exact, text = t.fields[0], deref_all(t.fields[1])
+        if not isinstance(text, str):
+            return [('the numeral for a concrete value is concrete text', False)]
+        ex_flag = simp(exact) if is_z3(exact) else exact
+        pr = numeral_problem(text, bool(ex_flag), ctx['v'], ctx['base'], sci=False)
+        return [('to_digits_impl(%s, base %d, %s) = %r denotes the value%s' % (ctx['v'], ctx['base'], ctx['mode'], text, '' if pr is None else ': ' + pr), pr is None)]
+
+    def case(self, ctx, vals, label):
+        c = Harness.case(self, ctx, vals, label)
+        c['inputs'].update({'v': str(ctx['v']), 'base': ctx['base'], 'mode': ctx['mode']})
+        return c
+
+    def native(self, inputs, label):
+        v = Fraction(inputs['v'])
+        return [{'mode': 'rat_to_string', 'fn': 'to_string', 'v': '%d/%d' % (v.numerator, v.denominator), 'base': int(inputs['base']),
+                 'digits': inputs['mode'] if inputs['mode'] == 'Default' else str(inputs['mode'])}]
+
+    def judge(self, inputs, label, obs):
+        o = obs[0]
+        if o.get('outcome') != 'ok':
+            return True, 'to_string: %s %s' % (o.get('outcome'), o.get('panic', ''))
+        pr = numeral_problem(o['text'], o['exact'], Fraction(inputs['v']), int(inputs['base']), sci=None)
+        return (pr is not None), pr or 'numeral %r denotes the value' % o['text']
+
+    def vectors(self, rng):
+        out = []
+        for _ in range(24):
+            v = rng.choice(COMPANION_VALUES) * rng.choice([1, -1])
+            # keep to values that to_string hands to to_digits_impl directly (no scientific notation, not zero)
+            if v == 0:
+                continue
+            out.append({'v': v, 'base': rng.choice(self.bases), 'mode': rng.choice(['2', '12', '30'])})
+        return out
+
+    def agree(self, vec, outcome, o):
+        t = deref_all(outcome[1])
+        text = deref_all(t.fields[1])
+        exact = t.fields[0]
+        exact = bool(simp(exact)) if is_z3(exact) else bool(exact)
+        if o.get('outcome') != 'ok':
+            return False, 'native: %s' % o
+        return (text == o['text'] and exact == o['exact']), 'MIR (%s, %r) native (%s, %r)' % (exact, text, o['exact'], o['text'])
+
+
+_c05_prev4 = harnesses
+
+
+def harnesses(tier):   # noqa: F811
+    return _c05_prev4(tier) + [DigitPrinterCompanion([10] if tier == 'quick' else [2, 10, 16])]
